@@ -212,18 +212,7 @@ theorem tombstoneMarks_sorted (c : Cnr) (h : c.WF) (epoch target : Nat) :
   unfold Cnr.tombstoneMarks
   generalize c.collectChildren 4 target ++ [target] = ids
   suffices H : ∀ (ids : List Nat) (acc : List (Nat × Bool) × Int × Int), GarbSorted acc.1 →
-      GarbSorted (ids.foldl (fun (acc : List (Nat × Bool) × Int × Int) id =>
-        let (garb, inh, pay) := acc
-        let cur : Cnr := { c with garb := garb }
-        let (e, r) := cur.get id false true epoch
-        let (inh, pay) :=
-          if e == .ok && cur.inGarbage id == .available then
-            (inh + 1,
-             match r with
-             | some rec => if rec.typ == .regular && rec.phy then pay - rec.size else pay
-             | none => pay)
-          else (inh, pay)
-        (insertGarb (id, false) garb, inh, pay)) acc).1 by
+      GarbSorted (ids.foldl (c.tombStep epoch) acc).1 by
     exact H ids (c.garb, 0, 0) h.garb
   intro ids
   induction ids with
@@ -232,6 +221,7 @@ theorem tombstoneMarks_sorted (c : Cnr) (h : c.WF) (epoch target : Nat) :
     intro acc hacc
     simp only [List.foldl_cons]
     apply ih
+    unfold Cnr.tombStep
     exact insertGarb_sorted _ _ hacc
 
 theorem putKind_wf (c1 : Cnr) (h1 : c1.WF) (epoch level : Nat) (h : Hdr) (b : Bool) (e : Err)
